@@ -18,6 +18,9 @@ Definition acked (w w' : world) (k : nat) : Prop :=
 Lemma count_acks_app a b : count_acks (a ++ b) = (count_acks a + count_acks b)%nat.
 Proof. induction a as [|[o p ok|[|k]|l|] a IH]; cbn [app count_acks]; auto. now rewrite IH. Qed.
 
+Lemma acked_eq w w' k k' : acked w w' k -> k = k' -> acked w w' k'.
+Proof. intros H <-. exact H. Qed.
+
 Lemma acked_refl w : acked w w 0.
 Proof. exists []. repeat split; constructor. Qed.
 
@@ -322,6 +325,488 @@ Proof.
   assert (forall x, x < 8 -> is_digit (48 + x) = true) as Hd by (intros x Hx; unfold is_digit; apply andb_true_iff; split; apply N.leb_le; lia).
   destruct Hin as [E|[E|[E|[E|[]]]]]; subst c;
     rewrite Hd in Hc; try discriminate; apply N.mod_lt; discriminate.
+Qed.
+
+
+Lemma good_name_ok nm : good_name nm -> name_ok nm = true.
+Proof.
+  intros (_ & Hs & _ & _ & _ & Hdd & _). unfold name_ok. apply andb_true_iff. split; apply negb_true_iff.
+  - destruct (mem c_slash nm) eqn:E; [apply mem_In in E; contradiction|reflexivity].
+  - now apply beq_neq.
+Qed.
+
+Definition tv_ok (st : lstate) : Prop := exists ms, l_tv st = mkt ms 0 ms 0.
+
+(* ---- a T record ---- *)
+Lemma loop_T f targ isd st w t rest :
+  (0 <= t < TMAX)%Z -> w_in w = T_rec t ++ rest ->
+  exists buf2 w1,
+    loop (S f) cfg targ isd st w = loop f cfg targ isd (mkl buf2 true (mkt t 0 t 0) (l_cursize st)) w1 /\
+    w_in w1 = rest /\ w_fs w1 = w_fs w /\ acked w w1 1.
+Proof.
+  intros Ht Hin. unfold TMAX in Ht.
+  set (l := zdigits t ++ [32;48;32] ++ zdigits t ++ [32;48]).
+  assert (Hrec : T_rec t ++ rest = 84 :: l ++ c_nl :: rest).
+  { unfold T_rec, l. rewrite <- !app_assoc. reflexivity. }
+  rewrite Hrec in Hin.
+  assert (Hz : zdigits t = digits (Z.to_N t)) by (apply zdigits_nonneg; lia).
+  assert (Hlen : (length (zdigits t) <= 19)%nat) by (rewrite Hz; apply ndigits_bound; lia).
+  assert (Hno : forall c, is_digit c = false -> c <> 32 -> ~ In c l).
+  { intros c Hc H32 Hi. unfold l in Hi. rewrite Hz in Hi.
+    repeat (apply in_app_or in Hi; destruct Hi as [Hi|Hi]); try (eapply digits_no; eauto; fail);
+      cbn [In] in Hi; intuition (subst; try discriminate; try congruence). }
+  destruct (loop_on_line f cfg targ isd st w 84 l rest) as (j1 & j2 & E); auto.
+  - discriminate.
+  - apply Hno; [reflexivity|discriminate].
+  - intros [H|H]; [discriminate|]. revert H. apply Hno; [reflexivity|discriminate].
+  - pose proof line_fits. unfold nlen, l. rewrite !app_length. cbn [length]. lia.
+  - rewrite E. unfold dispatch.
+    change (84 =? 1) with false. change (84 =? 2) with false. change (84 =? c_E) with false. cbv iota.
+    replace (84 :: l ++ 0 :: j2) with ([84] ++ zdigits t ++ [32;48;32] ++ zdigits t ++ [32;48] ++ 0 :: j2)
+      by (unfold l; rewrite <- !app_assoc; reflexivity).
+    rewrite parse_T by lia.
+    eexists _, _. split; [reflexivity|]. cbn. repeat split; auto.
+    apply acked_ack. apply acked_quiet_item; [exact I|]. apply acked_set_in. apply acked_refl.
+Qed.
+
+Lemma join_name_eq targ nm : targ <> [] -> join_name targ nm = targ ++ c_slash :: nm.
+Proof. intro H. unfold join_name. destruct targ; [congruence|reflexivity]. Qed.
+
+(* the line of a C or D record *)
+Lemma cd_line (isdir : bool) m size nm :
+  good_name nm -> size < 9223372036854775808 ->
+  let l := oct4 (N.land m 4095) ++ [32] ++ digits size ++ [32] ++ nm in
+  ~ In c_nl l /\ ~ In 0 l /\ nlen l + 2 < LINEMAX.
+Proof.
+  intros (_ & _ & Hnl & H0 & _ & _ & Hlen) Hs l. pose proof line_fits. pose proof (ndigits_bound _ Hs).
+  repeat split.
+  - unfold l. intro Hi. repeat (apply in_app_or in Hi; destruct Hi as [Hi|Hi]); auto;
+      try (eapply oct4_no; [|exact Hi]; reflexivity); try (eapply digits_no; [|exact Hi]; reflexivity);
+      cbn [In] in Hi; intuition discriminate.
+  - unfold l. intro Hi. repeat (apply in_app_or in Hi; destruct Hi as [Hi|Hi]); auto;
+      try (eapply oct4_no; [|exact Hi]; reflexivity); try (eapply digits_no; [|exact Hi]; reflexivity);
+      cbn [In] in Hi; intuition discriminate.
+  - unfold nlen, l. rewrite !app_length. unfold oct4. cbn [length]. unfold NAME_MAX in Hlen. lia.
+Qed.
+
+(* ---- a C record for a new entry ---- *)
+Lemma loop_C f targ st w m d nm rest q t pm pt pe :
+  good_name nm -> N.of_nat (length d) < 9223372036854775808 ->
+  w_in w = C_rec m (N.of_nat (length d)) nm ++ d ++ 0 :: rest ->
+  resolve (w_fs w) cwd targ = ROk q t -> lookup (w_fs w) q = Some (Dir pm pt pe) -> assoc nm pe = None ->
+  (length targ + 1 + length nm < PATH_MAX)%nat ->
+  tv_ok st ->
+  exists st' w' fs',
+    loop (S f) cfg targ true st w = loop f cfg targ true st' w' /\
+    l_setimes st' = false /\ tv_ok st' /\
+    w_in w' = rest /\ w_fs w' = fs' /\
+    set_at (w_fs w) (q ++ [nm])
+           (File (create_mode (N.land m 4095) um) (if l_setimes st then Some (t_msec (l_tv st)) else None) d) = Some fs' /\
+    acked w w' 2.
+Proof.
+  intros Hg Hsz Hin Hr Hq Ha Hpm [ms Htv].
+  pose proof (resolve_not_nil _ _ _ _ _ Hr) as Htn.
+  destruct (cd_line false m _ nm Hg Hsz) as (L1 & L2 & L3). cbv zeta in *.
+  set (l := oct4 (N.land m 4095) ++ [32] ++ digits (N.of_nat (length d)) ++ [32] ++ nm) in *.
+  assert (Hrec : C_rec m (N.of_nat (length d)) nm ++ d ++ 0 :: rest = 67 :: l ++ c_nl :: d ++ 0 :: rest).
+  { unfold C_rec, l. rewrite <- !app_assoc. reflexivity. }
+  rewrite Hrec in Hin.
+  destruct (loop_on_line f cfg targ true st w 67 l (d ++ 0 :: rest)) as (j1 & j2 & E); auto.
+  - discriminate.
+  - intros [H|H]; [discriminate|auto].
+  - rewrite E. unfold dispatch.
+    change (67 =? 1) with false. change (67 =? 2) with false. change (67 =? c_E) with false. cbv iota.
+    replace (67 :: l ++ 0 :: j2) with ([if false then c_D else c_C] ++ oct4 (N.land m 4095) ++ [32] ++ digits (N.of_nat (length d)) ++ [32] ++ nm ++ 0 :: j2)
+      by (unfold l; rewrite <- !app_assoc; reflexivity).
+    destruct Hg as (G1 & G2 & G3 & G4 & G5 & G6 & G7).
+    pose proof (parse_CD false m _ nm j2 Hsz G4) as Hp. cbv iota in Hp. rewrite Hp. clear Hp.
+    rewrite (good_name_ok nm) by (repeat split; assumption). rewrite andb_false_r.
+    rewrite (snprintf_fits cfg), join_name_eq by exact Htn.
+    set (w1 := logi (Line (67 :: l)) (set_in w (d ++ 0 :: rest))).
+    assert (Hr1 : resolve (w_fs w1) cwd (targ ++ c_slash :: nm) = ROk (q ++ [nm]) false).
+    { cbn. eapply resolve_entry; eauto.
+      - apply is_dir_lookup. eauto.
+      - repeat split; assumption.
+      - rewrite app_length. cbn [length]. lia. }
+    assert (Hfresh : lookup (w_fs w1) (q ++ [nm]) = None) by (cbn; rewrite lookup_app, Hq; cbn [lookup]; now rewrite Ha).
+    rewrite (do_stat_fresh _ _ _ _ Hr1 Hfresh).
+    set (w2 := logi (Touch OStat (q ++ [nm]) false) w1).
+    rewrite Htv. rewrite N2Z.inj_abs_N || idtac.
+    replace (Z.of_N (N.of_nat (length d))) with (Z.of_nat (length d)) by lia.
+    match goal with |- context [handle_file cfg ?np ?mode ?size ?se ?tv ?cont ?ww] =>
+      destruct (handle_file_new np mode se ms cont ww q nm pm pt pe d rest) as (w' & fs' & Eh & Hin' & Hfs' & Hset & Hack); auto end.
+    rewrite Eh. eexists _, w', fs'. split; [reflexivity|]. cbn [l_setimes l_tv].
+    split; [reflexivity|]. split; [exists ms; reflexivity|]. split; [exact Hin'|]. split; [exact Hfs'|].
+    split; [exact Hset|].
+    replace 2%nat with (0 + 2)%nat by lia. eapply acked_trans; [|exact Hack].
+    unfold w2, w1. apply acked_quiet_item; [exact I|]. apply acked_quiet_item; [exact I|]. apply acked_set_in. apply acked_refl.
+Qed.
+
+
+(* ---- one source tree, as the entry nm of the directory the loop is in ---- *)
+Definition node_ok (n : node) : Prop :=
+  forall f targ q t st w nm rest pm pt pe,
+  wf_src n -> good_name nm -> (length targ + 1 + length nm < PATH_MAX)%nat -> fits (length targ + 1 + length nm) n ->
+  w_in w = encode pres nm n ++ rest -> (length (w_in w) <= f)%nat ->
+  resolve (w_fs w) cwd targ = ROk q t -> lookup (w_fs w) q = Some (Dir pm pt pe) -> assoc nm pe = None ->
+  ydir_ok (w_fs w) -> l_setimes st = false -> tv_ok st ->
+  exists f' st' w' fs',
+    loop (S f) cfg targ true st w = loop (S f') cfg targ true st' w' /\
+    (length rest <= f')%nat /\ l_setimes st' = false /\ tv_ok st' /\
+    w_in w' = rest /\ w_fs w' = fs' /\
+    set_at (w_fs w) (q ++ [nm]) (copy_of pm n) = Some fs' /\
+    acked w w' (n_acks pres n).
+
+Lemma assoc_app_none k l1 l2 : assoc k l1 = None -> assoc k l2 = None -> assoc k (l1 ++ l2) = None.
+Proof.
+  induction l1 as [|[k' v'] r IH]; cbn [app assoc]; auto.
+  destruct (beq k k'); [discriminate|auto].
+Qed.
+
+Lemma in_names_neq k (l : list (name * node)) k2 v2 : ~ In k (map fst l) -> In (k2, v2) l -> beq k2 k = false.
+Proof.
+  intros Hn Hin. apply beq_neq. intro E. subst. apply Hn. change k with (fst (k, v2)). now apply in_map.
+Qed.
+
+(* a list of source trees, one after the other, into the same directory *)
+Lemma loop_list_gen : forall l, Forall (fun kv => node_ok (snd kv)) l ->
+  forall f targ q t st w rest pm pt pe,
+  wf_src_list l -> names_distinct l -> fits_list (length targ) l ->
+  (forall k v, In (k, v) l -> assoc k pe = None) ->
+  w_in w = encode_list pres l ++ rest -> (length (w_in w) <= f)%nat ->
+  resolve (w_fs w) cwd targ = ROk q t -> lookup (w_fs w) q = Some (Dir pm pt pe) ->
+  ydir_ok (w_fs w) -> l_setimes st = false -> tv_ok st ->
+  exists f' st' w' fs',
+    loop (S f) cfg targ true st w = loop (S f') cfg targ true st' w' /\
+    (length rest <= f')%nat /\ l_setimes st' = false /\ tv_ok st' /\
+    w_in w' = rest /\ w_fs w' = fs' /\
+    set_at (w_fs w) q (Dir pm (match l with [] => pt | _ => None end) (pe ++ copy_list pm l)) = Some fs' /\
+    ext (w_fs w) fs' /\
+    acked w w' (n_acks_list pres l).
+Proof.
+  induction l as [|[k v] r IH]; intros Hall f targ q t st w rest pm pt pe Hwf Hd Hfit Hfresh Hin Hlen Hr Hq Hy Hse Htv.
+  - cbn [encode_list app] in Hin. exists f, st, w, (w_fs w). repeat split; auto.
+    + rewrite Hin in Hlen. exact Hlen.
+    + cbn [copy_list]. rewrite app_nil_r.
+      destruct (set_at_exists q (w_fs w) _ (Dir pm pt pe) Hq) as [fs' Hs].
+      assert (fs' = w_fs w); [|congruence].
+      (* storing the node that is already there changes nothing *)
+      clear -Hq Hs. revert Hq Hs. generalize (w_fs w). intro root. revert root fs'.
+      induction q as [|c q IHq]; intros root fs' Hq Hs.
+      * cbn in *. congruence.
+      * cbn [lookup] in Hq. destruct root as [|m0 t0 e0]; [discriminate|].
+        destruct (assoc c e0) as [ch|] eqn:Ea; [|discriminate].
+        assert (Hput : forall x, assoc c e0 = Some x -> assoc_put c x e0 = e0).
+        { clear. intros x. induction e0 as [|[k' v'] r IH]; cbn [assoc assoc_put]; [discriminate|].
+          destruct (beq c k') eqn:E; [apply beq_eq in E; subst; intro H; inversion H; reflexivity|].
+          intro H. now rewrite IH. }
+        destruct q as [|c2 q2].
+        -- cbn in Hq. inversion Hq; subst ch. cbn [set_at] in Hs. rewrite Ea in Hs. inversion Hs. now rewrite Hput.
+        -- rewrite set_at_cons2, Ea in Hs. destruct (set_at ch (c2 :: q2) (Dir pm pt pe)) as [ch'|] eqn:E2; [|discriminate].
+           inversion Hs. rewrite (IHq ch ch' Hq E2). now rewrite Hput.
+    + apply ext_refl.
+    + apply acked_refl.
+  - inversion Hall as [|? ? Hv Hall']; subst. cbn [snd] in Hv.
+    cbn [wf_src_list] in Hwf. destruct Hwf as (Hg & Hwv & Hwr).
+    cbn [fits_list] in Hfit. destruct Hfit as (Hf1 & Hf2 & Hf3).
+    unfold names_distinct in Hd. cbn [map fst] in Hd. inversion Hd as [|? ? Hnotin Hd']; subst.
+    rewrite encode_list_cons, <- app_assoc in Hin.
+    destruct (Hv f targ q t st w k (encode_list pres r ++ rest) pm pt pe) as (f1 & st1 & w1 & fs1 & E1 & L1 & S1 & T1 & I1 & F1 & X1 & A1); auto.
+    { apply (Hfresh k v). left. reflexivity. }
+    assert (Hk : assoc k pe = None) by (apply (Hfresh k v); left; reflexivity).
+    assert (Hext1 : ext (w_fs w) fs1).
+    { eapply set_at_ext_new; [exact X1|]. rewrite lookup_app, Hq. cbn [lookup]. now rewrite Hk. }
+    assert (Hq1 : lookup (w_fs w1) q = Some (Dir pm None (pe ++ [(k, copy_of pm v)]))).
+    { rewrite F1. rewrite (set_at_new_entry _ _ _ _ _ _ _ Hq Hk) in X1. apply (lookup_set_at _ _ _ _ X1). }
+    destruct (IH Hall' f1 targ q t st1 w1 rest pm None (pe ++ [(k, copy_of pm v)])) as (f2 & st2 & w2 & fs2 & E2 & L2 & S2 & T2 & I2 & F2 & X2 & Ex2 & A2); auto.
+    { intros k2 v2 Hin2. apply assoc_app_none; [apply (Hfresh k2 v2); right; exact Hin2|].
+      cbn [assoc]. rewrite (in_names_neq k r k2 v2 Hnotin Hin2). reflexivity. }
+    { rewrite I1. exact L1. }
+    { rewrite F1. eapply resolve_ext; eauto. }
+    { rewrite F1. eapply ydir_ok_ext; eauto. }
+    exists f2, st2, w2, fs2. split; [rewrite E1; exact E2|]. repeat split; auto.
+    + rewrite copy_list_cons.
+      rewrite (set_at_new_entry _ _ _ _ _ _ _ Hq Hk) in X1.
+      rewrite F1 in X2. rewrite (set_at_twice _ _ _ _ _ X1) in X2.
+      replace (pe ++ (k, copy_of pm v) :: copy_list pm r) with ((pe ++ [(k, copy_of pm v)]) ++ copy_list pm r) by (now rewrite <- app_assoc).
+      destruct r; exact X2.
+    + eapply ext_trans; [exact Hext1|]. rewrite F1 in Ex2. exact Ex2.
+    + rewrite n_acks_list_cons. eapply acked_trans; eauto.
+Qed.
+
+
+Lemma T_rec_len t : (1 <= length (T_rec t))%nat.
+Proof. unfold T_rec. cbn [app length]. lia. Qed.
+Lemma C_rec_len m sz nm : (1 <= length (C_rec m sz nm))%nat.
+Proof. unfold C_rec. cbn [app length]. lia. Qed.
+Lemma D_rec_len m nm : (1 <= length (D_rec m nm))%nat.
+Proof. unfold D_rec. cbn [app length]. lia. Qed.
+
+(* the optional T record in front of a C or D record *)
+Lemma loop_optT f targ st w ms body :
+  (pres = true -> (0 <= ms < TMAX)%Z) ->
+  w_in w = (if pres then T_rec ms else []) ++ body -> (length (w_in w) <= f)%nat ->
+  l_setimes st = false -> tv_ok st ->
+  exists f0 st0 w0,
+    loop (S f) cfg targ true st w = loop (S f0) cfg targ true st0 w0 /\
+    w_in w0 = body /\ (length body <= f0)%nat /\ w_fs w0 = w_fs w /\
+    acked w w0 (if pres then 1 else 0) /\
+    l_setimes st0 = pres /\ (pres = true -> l_tv st0 = mkt ms 0 ms 0) /\ tv_ok st0.
+Proof.
+  intros Hms Hin Hlen Hse Htv. destruct pres eqn:Ep.
+  - destruct (loop_T f targ true st w ms body (Hms eq_refl) Hin) as (b2 & w1 & E1 & I1 & F1 & A1).
+    pose proof (T_rec_len ms). rewrite Hin, app_length in Hlen.
+    destruct f as [|f0]; [lia|].
+    eexists f0, _, w1. split; [exact E1|]. cbn [l_setimes l_tv]. repeat split; auto; try lia.
+    exists ms. reflexivity.
+  - cbn [app] in Hin. exists f, st, w. rewrite Hin in Hlen. repeat split; auto.
+    + apply acked_refl.
+    + discriminate.
+Qed.
+
+Theorem node_ok_all : forall n, node_ok n.
+Proof.
+  induction n as [m mt d|m mt ents IHn] using node_ind2; unfold node_ok;
+    intros f targ q t st w nm rest pm pt pe Hwf Hg Hpm Hfit Hin Hlen Hr Hq Ha Hy Hse Htv.
+  - (* a regular file *)
+    cbn [wf_src] in Hwf. destruct Hwf as [Hmt Hsz].
+    cbn [encode] in Hin. rewrite <- !app_assoc in Hin.
+    destruct (loop_optT f targ st w (node_mtime (File m mt d)) _ Hmt Hin Hlen Hse Htv)
+      as (f0 & st0 & w0 & E0 & I0 & L0 & F0 & A0 & S0 & V0 & T0).
+    cbn [app] in I0.
+    destruct (loop_C f0 targ st0 w0 m d nm rest q t pm pt pe) as (st' & w' & fs' & E1 & S1 & T1 & I1 & F1 & X1 & A1); auto;
+      try (rewrite F0; assumption).
+    pose proof (C_rec_len m (N.of_nat (length d)) nm). rewrite !app_length in L0. cbn [length] in L0.
+    destruct f0 as [|f']; [lia|].
+    exists f', st', w', fs'. split; [rewrite E0; exact E1|]. repeat split; auto; try lia.
+    + rewrite <- F0. cbn [copy_of]. rewrite S0 in X1.
+      destruct pres eqn:Ep; [rewrite (V0 eq_refl) in X1; exact X1|exact X1].
+    + cbn [n_acks]. replace (if pres then 1 else 0)%nat with (if pres then 1 else 0)%nat by reflexivity.
+      eapply acked_trans; eauto.
+  - (* a directory *)
+    destruct (proj1 (wf_src_dir _ _ _) Hwf) as (Hmt & Hdist & Hwl).
+    apply fits_dir in Hfit.
+    rewrite encode_dir in Hin. rewrite <- !app_assoc in Hin.
+    destruct (loop_optT f targ st w (node_mtime (Dir m mt ents)) _ Hmt Hin Hlen Hse Htv)
+      as (f0 & st0 & w0 & E0 & I0 & L0 & F0 & A0 & S0 & V0 & T0).
+    destruct T0 as [ms0 Htv0].
+    pose proof (resolve_not_nil _ _ _ _ _ Hr) as Htn.
+    (* the D line *)
+    destruct (cd_line true m 0 nm Hg ltac:(reflexivity)) as (L1 & L2 & L3). cbv zeta in *.
+    set (l := oct4 (N.land m 4095) ++ [32] ++ digits 0 ++ [32] ++ nm) in *.
+    assert (Hrec : D_rec m nm ++ encode_list pres ents ++ E_rec ++ rest = 68 :: l ++ c_nl :: encode_list pres ents ++ E_rec ++ rest).
+    { unfold D_rec, l. rewrite <- !app_assoc. reflexivity. }
+    rewrite Hrec in I0.
+    destruct (loop_on_line f0 cfg targ true st0 w0 68 l (encode_list pres ents ++ E_rec ++ rest)) as (j1 & j2 & ED); auto.
+    { discriminate. }
+    { intros [H|H]; [discriminate|auto]. }
+    unfold dispatch in ED.
+    change (68 =? 1) with false in ED. change (68 =? 2) with false in ED. change (68 =? c_E) with false in ED. cbv iota in ED.
+    replace (68 :: l ++ 0 :: j2) with ([c_D] ++ oct4 (N.land m 4095) ++ [32] ++ digits 0 ++ [32] ++ nm ++ 0 :: j2) in ED
+      by (unfold l; rewrite <- !app_assoc; reflexivity).
+    destruct Hg as (G1 & G2 & G3 & G4 & G5 & G6 & G7).
+    pose proof (parse_CD true m 0 nm j2 ltac:(reflexivity) G4) as Hp. cbv iota in Hp. rewrite Hp in ED. clear Hp.
+    rewrite (good_name_ok nm) in ED by (repeat split; assumption). rewrite andb_false_r in ED.
+    rewrite (snprintf_fits cfg), join_name_eq in ED by exact Htn.
+    set (np := targ ++ c_slash :: nm) in *.
+    set (p := q ++ [nm]) in *.
+    set (w1 := logi (Line (68 :: l)) (set_in w0 (encode_list pres ents ++ E_rec ++ rest))) in *.
+    assert (Hq0 : lookup (w_fs w0) q = Some (Dir pm pt pe)) by (rewrite F0; exact Hq).
+    assert (Hr1 : resolve (w_fs w1) cwd np = ROk p false).
+    { cbn. rewrite F0. eapply resolve_entry; eauto.
+      - apply is_dir_lookup. eauto.
+      - repeat split; assumption.
+      - unfold np. rewrite app_length. cbn [length]. lia. }
+    assert (Hfresh : lookup (w_fs w1) p = None) by (cbn; unfold p; rewrite lookup_app, Hq0; cbn [lookup]; now rewrite Ha).
+    rewrite (do_stat_fresh _ _ _ _ Hr1 Hfresh) in ED.
+    set (w2 := logi (Touch OStat p false) w1) in *.
+    unfold handle_dir in ED.
+    (* mkdir, and the chmod of the fix *)
+    destruct (do_mkdir_fresh np w2 q nm false (N.land m 4095) pm pt pe) as (fs3 & Hs3 & Em); auto.
+    rewrite Em in ED. cbv iota beta in ED. cbn [andb] in ED. change (q ++ [nm]) with p in ED.
+    set (w3 := logi (Touch OMkdir p true) (set_fs w2 fs3)) in *.
+    assert (Hext3 : ext (w_fs w) fs3).
+    { rewrite <- F0. change (w_fs w0) with (w_fs w2). eapply set_at_ext_new; [exact Hs3|exact Hfresh]. }
+    assert (Hr3 : resolve (w_fs w3) cwd np = ROk p false).
+    { cbn. eapply resolve_ext; [|exact Hr1]. cbn. rewrite F0. exact Hext3. }
+    assert (Hw4 : exists w4 fs4, (if pres && c_dirmode cfg then snd (do_chmod cfg np (N.land m 4095) w3) else w3) = w4 /\
+                   w_in w4 = w_in w3 /\ w_fs w4 = fs4 /\
+                   set_at (w_fs w2) p (Dir (dmode m pm) None []) = Some fs4 /\ acked w3 w4 0).
+    { unfold dmode. destruct (pres && c_dirmode cfg) eqn:Edm.
+      - destruct (do_chmod_dir np w3 p false (mkdir_mode (N.land m 4095) um pm) None [] (N.land m 4095) Hr3) as (fs4 & Hs4 & Ec).
+        { cbn. apply (lookup_set_at _ _ _ _ Hs3). }
+        rewrite Ec. cbn [snd]. eexists _, fs4. split; [reflexivity|]. cbn. repeat split; auto.
+        + rewrite <- Hs4. symmetry. apply (set_at_twice _ _ _ _ _ Hs3).
+        + apply acked_quiet_item; [exact I|]. apply acked_set_fs. apply acked_refl.
+      - exists w3, fs3. repeat split; auto. apply acked_refl. }
+    destruct Hw4 as (w4 & fs4 & Ew4 & I4 & F4 & X4 & A4). rewrite Ew4 in ED. cbn [negb] in ED.
+    assert (Hext4 : ext (w_fs w) fs4).
+    { rewrite <- F0. change (w_fs w0) with (w_fs w2). eapply set_at_ext_new; [exact X4|exact Hfresh]. }
+    assert (Hl4 : lookup (w_fs w4) p = Some (Dir (dmode m pm) None [])) by (rewrite F4; apply (lookup_set_at _ _ _ _ X4)).
+    assert (Hr4 : resolve (w_fs w4) cwd np = ROk p false).
+    { rewrite F4. eapply resolve_ext; [|exact Hr1]. cbn. rewrite F0. exact Hext4. }
+    assert (Hy4 : ydir_ok (w_fs w4)) by (rewrite F4; eapply ydir_ok_ext; eauto).
+    (* the nested _sink: its first answer, the entries, the E record *)
+    destruct (enter_dir np w4 (fun isd w'' => loop f0 cfg np isd PcpSink.st0 w'') p false _ _ _ Hy4 Hr4 Hl4) as (w5 & E5 & I5 & F5 & A5).
+    rewrite E5 in ED.
+    assert (Hin5 : w_in w5 = encode_list pres ents ++ E_rec ++ rest) by (rewrite I5, I4; reflexivity).
+    assert (Hlen5 : (length (w_in w5) < f0)%nat).
+    { rewrite Hin5. pose proof (D_rec_len m nm). rewrite app_length in L0. lia. }
+    destruct f0 as [|f1]; [lia|].
+    assert (Hf1 : (length rest <= f1)%nat) by (rewrite Hin5, !app_length in Hlen5; lia).
+    destruct (loop_list_gen ents IHn f1 np p false PcpSink.st0 w5 (E_rec ++ rest) (dmode m pm) None []) as
+      (f2 & st2 & w6 & fs6 & E6 & L6 & S6 & T6 & I6 & F6 & X6 & Ex6 & A6); auto.
+    { unfold np. rewrite app_length. cbn [length]. replace (length targ + S (length nm))%nat with (length targ + 1 + length nm)%nat by lia. exact Hfit. }
+    { lia. }
+    { rewrite F5. exact Hr4. }
+    { rewrite F5. exact Hl4. }
+    { rewrite F5. exact Hy4. }
+    { exists 0%Z. reflexivity. }
+    rewrite E6 in ED.
+    (* the E record ends the nested call *)
+    destruct (loop_on_line f2 cfg np true st2 w6 c_E [] rest) as (k1 & k2 & EE); auto.
+    { discriminate. }
+    { intros [H|[]]. discriminate. }
+    { pose proof line_fits. unfold nlen. cbn. lia. }
+    unfold dispatch in EE. change (c_E =? 1) with false in EE. change (c_E =? 2) with false in EE.
+    rewrite N.eqb_refl in EE. cbv iota in EE.
+    rewrite EE in ED.
+    set (w7 := say Ack (logi (Line [c_E]) (set_in w6 rest))) in *.
+    (* back in the parent: times, then on with the loop *)
+    assert (Hfs7' : set_at (w_fs w) p (Dir (dmode m pm) None (copy_list (dmode m pm) ents)) = Some fs6).
+    { rewrite F5, F4 in X6. rewrite (set_at_twice _ _ _ _ _ X4) in X6. change (w_fs w2) with (w_fs w0) in X6.
+      rewrite F0 in X6. cbn [app] in X6. destruct ents; exact X6. }
+    assert (Hack7 : acked w w7 ((if pres then 1 else 0) + (1 + n_acks_list pres ents + 1))).
+    { eapply acked_trans; [exact A0|].
+      replace (1 + n_acks_list pres ents + 1)%nat with (0 + (0 + (1 + (n_acks_list pres ents + 1))))%nat by lia.
+      eapply acked_trans; [|eapply acked_trans; [exact A4|eapply acked_trans; [exact A5|]]].
+      - unfold w3, w2, w1. apply acked_quiet_item; [exact I|]. apply acked_set_fs. apply acked_quiet_item; [exact I|].
+        apply acked_quiet_item; [exact I|]. apply acked_set_in. apply acked_refl.
+      - eapply acked_trans; [exact A6|]. unfold w7. apply acked_ack. apply acked_quiet_item; [exact I|]. apply acked_set_in. apply acked_refl. }
+    assert (Hfuel : (length rest <= f2 - 1)%nat /\ (1 <= f2)%nat).
+    { unfold E_rec in L6. cbn [app length] in L6. lia. }
+    destruct f2 as [|f3]; [lia|].
+    rewrite S0 in ED.
+    destruct pres eqn:Ep.
+    + (* -p: utimes on the directory *)
+      rewrite (V0 eq_refl) in ED.
+      assert (Hext6 : ext (w_fs w) fs6).
+      { eapply set_at_ext_new; [exact Hfs7'|]. rewrite <- F0. exact Hfresh. }
+      assert (Hr7 : resolve (w_fs w7) cwd np = ROk p false).
+      { cbn. rewrite F6. eapply resolve_ext; [exact Hext6|]. rewrite <- F0. exact Hr1. }
+      destruct (do_utimes_node np w7 p false (Dir (dmode m pm) None (copy_list (dmode m pm) ents)) (node_mtime (Dir m mt ents)) Hr7)
+        as (fs8 & Hs8 & Eu).
+      { cbn. rewrite F6. apply (lookup_set_at _ _ _ _ Hfs7'). }
+      { discriminate. }
+      cbv iota beta in ED. rewrite Eu in ED. cbv iota beta in ED.
+      eexists f1, _, _, fs8. split; [rewrite E0; exact ED|]. cbn [l_setimes l_tv w_in w_fs say logi set_fs set_in].
+      split; [lia|]. split; [reflexivity|]. split; [exists (node_mtime (Dir m mt ents)); reflexivity|].
+      split; [reflexivity|]. split; [reflexivity|]. split.
+      * rewrite copy_of_dir. rewrite Ep. rewrite <- Hs8. cbn [set_mtime w_fs w7 say logi set_in]. rewrite F6.
+        symmetry. apply (set_at_twice _ _ _ _ _ Hfs7').
+      * rewrite n_acks_dir. eapply acked_eq; [eapply acked_trans; [exact Hack7|]|apply Nat.add_0_r].
+        apply acked_quiet_item; [exact I|]. apply acked_set_fs. apply acked_refl.
+    + cbv iota beta in ED.
+      eexists f1, _, w7, fs6. split; [rewrite E0; exact ED|]. cbn [l_setimes l_tv].
+      split; [lia|]. split; [reflexivity|]. split; [exists ms0; exact Htv0|].
+      split; [reflexivity|]. split; [exact F6|]. split.
+      * rewrite copy_of_dir. rewrite Ep. exact Hfs7'.
+      * rewrite n_acks_dir. exact Hack7.
+Qed.
+
+
+Lemma replies_starved w : replies (logi Starved w) = replies w.
+Proof.
+  unfold replies. cbn [w_log logi rev]. rewrite fold_right_app. reflexivity.
+Qed.
+
+(* ---- the whole receiver on what the sender writes for a list of sources ---- *)
+Theorem sink_encode fs srcs dp t dm dt de :
+  resolve fs cwd (c_dest cfg) = ROk dp t -> lookup fs dp = Some (Dir dm dt de) ->
+  wf_src_list srcs -> names_distinct srcs -> fits_list (length (c_dest cfg)) srcs ->
+  (forall k v, In (k, v) srcs -> assoc k de = None) ->
+  exists w' fs',
+    sink cfg fs (encode_list pres srcs) = (w', RetEnd) /\
+    w_fs w' = fs' /\
+    set_at fs dp (Dir dm (match srcs with [] => dt | _ => None end) (de ++ copy_list dm srcs)) = Some fs' /\
+    replies w' = repeat Ack (1 + n_acks_list pres srcs) /\
+    seen_replies w' = repeat Ack (1 + n_acks_list pres srcs) /\
+    w_in w' = [].
+Proof.
+  intros Hr Hl Hwf Hd Hfit Hfresh. unfold sink.
+  set (stream := encode_list pres srcs).
+  assert (Hy : ydir_ok (w_fs (w0 fs stream))).
+  { intros _. exists dp, t, dm, dt, de. split; assumption. }
+  destruct (enter_dir (c_dest cfg) (w0 fs stream)
+              (fun isd w => loop (S (length stream)) cfg (c_dest cfg) isd st0 w) dp t dm dt de Hy Hr Hl) as (w1 & E1 & I1 & F1 & A1).
+  rewrite E1.
+  destruct (loop_list_gen srcs (proj2 (Forall_forall _ _) (fun kv _ => node_ok_all (snd kv)))
+              (length stream) (c_dest cfg) dp t st0 w1 [] dm dt de) as
+    (f2 & st2 & w2 & fs2 & E2 & L2 & S2 & T2 & I2 & F2 & X2 & Ex2 & A2); auto.
+  - rewrite I1. cbn. now rewrite app_nil_r.
+  - rewrite I1. cbn. lia.
+  - rewrite F1. exact Hr.
+  - rewrite F1. exact Hl.
+  - rewrite F1. exact Hy.
+  - exists 0%Z. reflexivity.
+  - rewrite E2, loop_unfold, I2. cbn [read_line].
+    eexists _, fs2. split; [reflexivity|]. cbn [w_fs logi w_in].
+    assert (Hack : acked (w0 fs stream) w2 (1 + n_acks_list pres srcs)) by (eapply acked_trans; eauto).
+    split; [exact F2|]. split; [rewrite F1 in X2; exact X2|].
+    split; [rewrite replies_starved; eapply acked_replies; exact Hack|].
+    split; [|exact I2].
+    (* what the peer has seen: the transcript up to the Starved mark is the whole clean transcript *)
+    destruct Hack as (dl & E & F & C). cbn in E. rewrite app_nil_r in E.
+    unfold seen_replies. cbn [w_log logi rev]. rewrite E.
+    assert (Hgen : forall d, Forall clean_item d -> replies_until_starved (d ++ [Starved]) = repeat Ack (count_acks d)).
+    { induction d as [|it d IH]; intro Hc; [reflexivity|]. inversion Hc; subst.
+      destruct it as [o p ok|[|k]|ln|]; cbn [app replies_until_starved count_acks repeat]; try contradiction; rewrite ?IH; auto. }
+    rewrite Hgen by (apply Forall_rev; exact F). now rewrite count_acks_rev, C.
+Qed.
+
+(* ---- S: the copy is faithful ---- *)
+Fixpoint faithful (src cp : node) : Prop :=
+  match src, cp with
+  | File m _ d, File m' t' d' =>
+    d' = d /\ (pres = true -> m' = N.land m 4095 /\ t' = Some (node_mtime src))
+  | Dir m _ ents, Dir m' t' ents' =>
+    (pres = true -> m' = N.land m 4095 /\ t' = Some (node_mtime src)) /\
+    (fix all2 (a b : list (name * node)) : Prop :=
+       match a, b with
+       | [], [] => True
+       | (k, v) :: ra, (k', v') :: rb => k' = k /\ faithful v v' /\ all2 ra rb
+       | _, _ => False
+       end) ents ents'
+  | _, _ => False
+  end.
+
+Fixpoint faithful_list (a b : list (name * node)) : Prop :=
+  match a, b with
+  | [], [] => True
+  | (k, v) :: ra, (k', v') :: rb => k' = k /\ faithful v v' /\ faithful_list ra rb
+  | _, _ => False
+  end.
+
+Lemma create_mode_p m : pres = true -> create_mode (N.land m 4095) um = N.land m 4095.
+Proof.
+  intro Hp. unfold create_mode, eff_umask. rewrite Hp. cbn [N.land N.lxor].
+  rewrite <- N.land_assoc. reflexivity.
+Qed.
+
+Lemma copy_faithful : (pres = true -> c_dirmode cfg = true) -> forall n pm, faithful n (copy_of pm n).
+Proof.
+  intro Hdm. induction n as [m mt d|m mt ents IHn] using node_ind2; intro pm.
+  - cbn [copy_of faithful]. split; [reflexivity|]. intro Hp. rewrite Hp. split; [apply create_mode_p; exact Hp|reflexivity].
+  - rewrite copy_of_dir. cbn [faithful]. split.
+    + intro Hp. rewrite Hp. unfold dmode. rewrite Hp, (Hdm Hp). split; reflexivity.
+    + generalize (dmode m pm). intro dm. induction ents as [|[k v] r IHr]; [exact I|].
+      inversion IHn; subst. cbn [copy_list]. split; [reflexivity|]. split; [apply H1|]. apply IHr. exact H2.
+Qed.
+
+Lemma copy_list_faithful : (pres = true -> c_dirmode cfg = true) -> forall l pm, faithful_list l (copy_list pm l).
+Proof.
+  intros Hdm l pm. induction l as [|[k v] r IH]; [exact I|].
+  cbn [copy_list faithful_list]. split; [reflexivity|]. split; [apply copy_faithful; exact Hdm|exact IH].
 Qed.
 
 End Round.
